@@ -83,7 +83,11 @@ type Options struct {
 	NoTcPr         bool `json:"no_tc_pr,omitempty"`        // unmerged cells carry no w:tcPr at all (17.4.70: optional)
 	TableStyle     bool `json:"table_style,omitempty"`     // tables reference a TableGrid style and carry w:tblLook
 	ItemStyle      bool `json:"item_style,omitempty"`      // list paragraphs carry pStyle ListParagraph (as Word does)
-	DirectStyled   bool `json:"direct_styled,omitempty"`   // headings made by a direct w:outlineLvl also reference the non-heading style BodyText (17.3.1.20: the paragraph property overrides the style's for this paragraph only)
+	// GridAfter: see table()
+	GridAfter bool `json:"grid_after,omitempty"`
+	// NestedEmptyTable: the first cell of every table holds an empty 1x1 table behind its paragraphs
+	NestedEmptyTable bool `json:"nested_empty_table,omitempty"`
+	DirectStyled     bool `json:"direct_styled,omitempty"` // headings made by a direct w:outlineLvl also reference the non-heading style BodyText (17.3.1.20: the paragraph property overrides the style's for this paragraph only)
 
 	// Extra members appended to the canonical list (theme, thumbnails, decoys).
 	Extra []wpmodel.Member `json:"extra,omitempty"`
@@ -119,6 +123,8 @@ func GenOptions(t *rapid.T) Options {
 	o.NoTcPr = rapid.Bool().Draw(t, "no_tcpr")
 	o.TableStyle = rapid.Bool().Draw(t, "table_style")
 	o.ItemStyle = rapid.Bool().Draw(t, "item_style")
+	o.NestedEmptyTable = rapid.IntRange(0, 3).Draw(t, "nested_empty_table") == 0
+	o.GridAfter = rapid.Bool().Draw(t, "grid_after")
 	o.DirectStyled = rapid.IntRange(0, 2).Draw(t, "direct_styled") == 0
 	if rapid.IntRange(0, 3).Draw(t, "extras") == 3 {
 		// parts Word writes besides the ones tabula reads, and a directory entry
@@ -582,12 +588,31 @@ func (w *writer) table(x *wpmodel.XW, t *wpmodel.Table) {
 	g := t.Anchor()
 	for r := 0; r < t.Rows; r++ {
 		x.Open(w.e("tr")) // 17.4.79
-		if r < t.HeaderRows {
+		// GridAfter: an empty, unmerged last cell of the first row is not written; the row says that it leaves one
+		// grid column unused behind its last cell (17.4.14 gridAfter). The row is shorter than the table is wide.
+		skipLast := false
+		if w.o.GridAfter && r == 0 && t.Cols >= 2 && t.Rows >= 2 {
+			last := t.Cells[g[0][t.Cols-1]]
+			empty := last.RS == 1 && last.CS == 1
+			for _, p := range last.Paras {
+				empty = empty && len(p) == 0
+			}
+			skipLast = empty
+		}
+		if r < t.HeaderRows || skipLast {
 			x.Open(w.e("trPr"))
-			x.Empty(w.e("tblHeader")) // 17.4.50
+			if skipLast {
+				x.Empty(w.e("gridAfter"), w.a("val"), "1")
+			}
+			if r < t.HeaderRows {
+				x.Empty(w.e("tblHeader")) // 17.4.50
+			}
 			x.Close(w.e("trPr"))
 		}
 		for c := 0; c < t.Cols; {
+			if skipLast && c == t.Cols-1 {
+				break
+			}
 			cell := t.Cells[g[r][c]]
 			x.Open(w.e("tc")) // 17.4.66
 			plain := cell.CS == 1 && cell.RS == 1 && w.o.NoTcPr && !w.o.SpanOne
@@ -617,6 +642,24 @@ func (w *writer) table(x *wpmodel.XW, t *wpmodel.Table) {
 					x.Open(w.e("p"))
 					w.runs(x, p, true)
 					x.Close(w.e("p"))
+				}
+				if w.o.NestedEmptyTable && r == 0 && c == 0 {
+					// an empty 1x1 table nested in the first cell (a layout remnant), and the paragraph that must
+					// follow it (17.4.66): it adds no text; tables below w:body are the top-level ones
+					x.Open(w.e("tbl"))
+					x.Open(w.e("tblPr"))
+					x.Empty(w.e("tblW"), w.a("w"), "0", w.a("type"), "auto")
+					x.Close(w.e("tblPr"))
+					x.Open(w.e("tblGrid"))
+					x.Empty(w.e("gridCol"), w.a("w"), "900")
+					x.Close(w.e("tblGrid"))
+					x.Open(w.e("tr"))
+					x.Open(w.e("tc"))
+					x.Empty(w.e("p"))
+					x.Close(w.e("tc"))
+					x.Close(w.e("tr"))
+					x.Close(w.e("tbl"))
+					x.Empty(w.e("p"))
 				}
 			} else {
 				x.Empty(w.e("p")) // 17.4.66: a cell must end with a paragraph; continuation cells are empty
